@@ -157,6 +157,48 @@ def gen_cases(ctx, n_docs, per_doc, depth):
     return cases
 
 
+def gen_conversion_chain_cases():
+    """directed stream, no random choice: a value of every type, converted by one function (string, normalize-space,
+    concat, boolean, number, or nothing), then USED as a number, a boolean, a string or in a comparison.  The objects
+    that string() / normalize-space() return for non-string arguments (XStringAdapter and friends) answer num() /
+    boolean() / str() through overrides of their own: a wrong one shows only in such a chain (seed C02_h)."""
+    F = lambda name, *a: ("fn", name, list(a))
+    top = [("e", "d", [], [("e", "a", [], [("t", " 12 ")]), ("e", "b", [], [("t", "true")]), ("e", "z", [], [])])]
+    nodes = xpgen.build_nodes(top)
+    dtoks = xpgen.doc_tokens(top)
+    el = {n.qname: n.id for n in nodes if n.kind == "elem"}
+    variables = {"n1": ("num", 2.0), "s1": ("str", "1"), "b1": ("bool", True), "ns1": ("nodes", [el["a"]]), "e1": ("nodes", [])}
+    vfield = "n1=n:%s;s1=s:%s;b1=b:1;ns1=ns:%d;e1=ns:" % (xpgen.dbits(2.0), xpgen.tok("1"), el["a"])
+    inner = [F("true"), F("false"), ("eq", ("num", "1"), ("num", "1")), ("var", "b1"), F("not", ("var", "e1")),
+             ("num", "0"), ("num", "1"), ("var", "n1"), ("neg", ("num", "0.5")), ("div", ("num", "1"), ("num", "0")),
+             ("lit", "1"), ("lit", ""), ("lit", " 12 "), ("var", "s1"), ("lit", "abc"), ("lit", "true"),
+             ("var", "ns1"), ("var", "e1"), ("path", None, [], [("child", ("name", None, "b"), [])]), ("path", None, [], [("child", ("name", None, "z"), [])])]
+    conv = [lambda x: x, lambda x: F("string", x), lambda x: F("normalize-space", x), lambda x: F("concat", x, ("lit", "")),
+            lambda x: F("boolean", x), lambda x: F("number", x), lambda x: F("string", F("string", x)), lambda x: F("normalize-space", F("string", x))]
+    use = [lambda y: F("number", y), lambda y: ("plus", y, ("num", "1")), lambda y: ("eq", y, ("num", "0")), lambda y: ("eq", y, ("num", "1")),
+           lambda y: ("eq", y, ("lit", "true")), lambda y: ("lt", y, ("num", "1")), lambda y: ("gte", y, ("num", "1")), lambda y: F("boolean", y),
+           lambda y: F("not", y), lambda y: F("string-length", y), lambda y: F("concat", y, ("lit", "|")), lambda y: ("eq", y, F("true")),
+           lambda y: ("mult", y, ("num", "2")), lambda y: F("floor", y), lambda y: F("sum", ("var", "e1")) if False else ("neg", y)]
+    cases, k = [], 0
+    for x in inner:
+        for cv in conv:
+            for u in use:
+                y = cv(x)
+                if y[0] in ("eq", "neg", "div"):
+                    y = ("group", y)
+                e = u(y)
+                try:
+                    sx = xpgen.sx_expr(e)
+                    st = xpgen.p_expr(e)
+                except Exception:
+                    continue
+                line = "cc%d|eval|D:%s|C:%d;%d|V:%s|N:p=%s;q=%s|X:%s|A:%s" % (k, dtoks, el["d"], el["d"], vfield, xpgen.tok("urn:p"), xpgen.tok("urn:q"), xpgen.tok(st), sx)
+                cases.append({"id": "cc%d" % k, "line": line, "expr": e, "str": st, "nodes": nodes, "ctx": el["d"], "cl": [el["d"]],
+                              "vars": {n: v for n, (t, v) in variables.items()}, "nonbmp": False, "doc": dtoks, "cls": "conversion-chain"})
+                k += 1
+    return cases
+
+
 def gen_id_cases(r, n_docs, per_doc, prefix="i"):
     """the id() stream: documents with an internal DTD subset (ID / IDREF / IDREFS / CDATA / NMTOKEN(S) /
     enumerated attributes, defaults, forward and dangling references, duplicate IDs) x expressions around
@@ -800,6 +842,9 @@ def run(ctx):
     cases = gen_cases(ctx, n_docs, per_doc, 3)
     ctx.cov["samples"] = [c["str"] for c in cases[:12]]
     corr, orc = evaluate(ctx, cases, impl, model)
+    c_cc, o_cc = evaluate(ctx, gen_conversion_chain_cases(), impl, model)
+    corr += c_cc
+    orc += o_cc
     malformed_stream(ctx, cases, impl, known, hits, 1500 if not ctx.thorough else 20000)
     new = [o for o in orc if not (o["known"] and o["known"] in known)]
     if (corr or not proved or not model) and not new and not ctx.thorough:
